@@ -7,8 +7,8 @@ var powStub = []string{"in stub-hash runs the 243-word hash state handed to the 
 var plans = map[string]propPlan{
 	"C13": {
 		Engine:   "powsim",
-		Quick:    []flavPlan{{"plain", 14000, 200}, {"race", 2400, 50}, {"auto", 5000, 100}},
-		Thorough: []flavPlan{{"plain", 500000, 1000}, {"race", 60000, 200}, {"auto", 200000, 500}},
+		Quick:    []flavPlan{{"plain", 14000, 200}, {"race", 2400, 50}, {"auto", 5000, 100}, {"386", 2000, 100}},
+		Thorough: []flavPlan{{"plain", 500000, 1000}, {"race", 60000, 200}, {"auto", 200000, 500}, {"386", 60000, 500}},
 		Rule: "one evaluation = one simulated Mine call (version, worker count, data, target, hash mode, find plan, cancellation plan, scheduling strategy all drawn from the run seed) executed under the seeded scheduler; " +
 			"a run is non-trivial if the schedule switched actors at least twice and a find or a cancellation occurred; distinct = distinct hashes of the executed (actor, yield site) sequence among non-trivial runs",
 		Real: powReal, Stub: powStub,
